@@ -1,6 +1,8 @@
 """Shared sensors for the alignment properties (C07, C08): constructor-option shadow table and family judges."""
 import numpy as np
 
+from vf.tx import amax as _amax
+
 from vf import taps, tx, ref
 
 SHADOW = {}     # id(alignment) -> (alignment (strong ref, cleared per case), options dict)
@@ -64,12 +66,12 @@ def judge_family(ctx, t, src, tgt, opts, where):
         L, tr = h[:d, :d], h[:d, d]
     if isinstance(t, mt.AlignmentTranslation):
         exp = tgt.mean(0) - src.mean(0)
-        if np.abs(tr - exp).max() > 1e-9 * scale or np.abs(L - np.eye(d)).max() > 1e-12:
+        if _amax(tr - exp) > 1e-9 * scale or _amax(L - np.eye(d)) > 1e-12:
             ctx.fail("translation_alignment_is_not_the_centroid_difference", cls=cls, mech=where)
     elif isinstance(t, mt.AlignmentUniformScale):
         ns, nt = np.linalg.norm(src - src.mean(0)), np.linalg.norm(tgt - tgt.mean(0))
         y = src @ L.T + tr
-        if abs(np.linalg.norm(y - y.mean(0)) - nt) > 1e-9 * max(1.0, nt) or np.abs(L - L[0, 0] * np.eye(d)).max() > 1e-12 or np.abs(tr).max() > 1e-12:
+        if abs(np.linalg.norm(y - y.mean(0)) - nt) > 1e-9 * max(1.0, nt) or _amax(L - L[0, 0] * np.eye(d)) > 1e-12 or _amax(tr) > 1e-12:
             ctx.fail("scale_alignment_does_not_reproduce_the_target_size", cls=cls, mech=where)
     elif isinstance(t, mt.AlignmentAffine):
         a = np.hstack([src, np.ones((len(src), 1))])
@@ -77,14 +79,14 @@ def judge_family(ctx, t, src, tgt, opts, where):
         grad = a.T @ (a @ m - tgt)
         g = np.abs(grad).max() / (scale * scale * len(src))
         ctx.err("affine_normal_equation_residual", g)
-        if g > 1e-8:
+        if not (g <= 1e-8):
             ctx.fail("affine_alignment_is_not_least_squares_optimal", cls=cls, mech=where, gradient=float(g))
         ls = np.linalg.lstsq(a, tgt, rcond=None)[0]
-        if np.abs(ls - m).max() > 1e-6 * scale:
+        if _amax(ls - m) > 1e-6 * scale:
             ctx.fail("affine_alignment_differs_from_lstsq", cls=cls, mech=where)
     elif isinstance(t, mt.AlignmentRotation):
         mirror = bool(opts.get("allow_mirror", False))
-        if np.abs(L.T @ L - np.eye(d)).max() > 1e-8 or np.abs(tr).max() > 1e-12:
+        if _amax(L.T @ L - np.eye(d)) > 1e-8 or _amax(tr) > 1e-12:
             ctx.fail("rotation_alignment_is_not_orthogonal", cls=cls, mech=where)
         det = np.linalg.det(L)
         if det < 0 and not mirror:
@@ -113,19 +115,19 @@ def judge_family(ctx, t, src, tgt, opts, where):
         mirror = bool(opts.get("allow_mirror", False))
         rot = bool(opts.get("rotation", True))
         y = src @ L.T + tr
-        if np.abs(y.mean(0) - tgt.mean(0)).max() > 1e-9 * scale:
+        if _amax(y.mean(0) - tgt.mean(0)) > 1e-9 * scale:
             ctx.fail("similarity_alignment_does_not_reproduce_the_target_centroid", cls=cls, mech=where)
         nt = np.linalg.norm(tgt - tgt.mean(0))
         if abs(np.linalg.norm(y - y.mean(0)) - nt) > 1e-9 * max(1.0, nt):
             ctx.fail("similarity_alignment_does_not_reproduce_the_target_size", cls=cls, mech=where)
         g = L.T @ L
         k = np.trace(g) / d
-        if np.abs(g - k * np.eye(d)).max() > 1e-8 * k:
+        if _amax(g - k * np.eye(d)) > 1e-8 * k:
             ctx.fail("similarity_alignment_linear_part_is_not_a_scaled_rotation", cls=cls, mech=where)
             return
         r_got = L / np.sqrt(k)
         if not rot:
-            if np.abs(r_got - np.eye(d)).max() > 1e-9:
+            if _amax(r_got - np.eye(d)) > 1e-9:
                 ctx.fail("similarity_alignment_rotates_although_rotation_was_switched_off", cls=cls, mech=where)
             return
         if np.linalg.det(r_got) < 0 and not mirror:
@@ -148,12 +150,12 @@ def judge_family(ctx, t, src, tgt, opts, where):
             return
         e = tx.maxdiff(t.apply(src.copy()), tgt)
         ctx.err("tps_interpolation", e)
-        if e > 1e-7 * scale:
+        if not (e <= 1e-7 * scale):
             ctx.fail("spline_does_not_send_source_landmarks_onto_target_landmarks", cls=cls, mech=where, err=e)
     elif isinstance(t, AbstractPWA):
         e = tx.maxdiff(t.apply(src.copy()), tgt)
         ctx.err("pwa_interpolation", e)
-        if e > 1e-7 * scale:
+        if not (e <= 1e-7 * scale):
             ctx.fail("pwa_does_not_send_source_landmarks_onto_target_landmarks", cls=cls, mech=where, err=e)
         tl = np.asarray(t.source.trilist)
         rng = np.random.default_rng(9)
@@ -166,7 +168,7 @@ def judge_family(ctx, t, src, tgt, opts, where):
         try:
             e = tx.maxdiff(t.apply(p), expect)
             ctx.err("pwa_affine_in_triangle", e)
-            if e > 1e-7 * scale:
+            if not (e <= 1e-7 * scale):
                 ctx.fail("pwa_is_not_affine_inside_a_source_triangle", cls=cls, mech=where, err=e)
             # ... also for a second, minutely different set of interior points asked for right afterwards (the map is
             # affine, not piecewise constant: each point moves by its triangle's linear part times the nudge)
@@ -176,7 +178,7 @@ def judge_family(ctx, t, src, tgt, opts, where):
             if r2 is not None and r2[1].all():
                 e = tx.maxdiff(t.apply(p2.copy()), r2[0])
                 ctx.err("pwa_affine_in_triangle_nudged", e)
-                if e > 1e-9 * scale:
+                if not (e <= 1e-7 * scale):  # same bound as for the first set (thin triangles cost digits); a stale answer is off by ~1e-5
                     ctx.fail("pwa_is_not_affine_inside_a_source_triangle", cls=cls, mech=where + ":nudged_points", err=e)
         except Exception as ex:
             ctx.fail("pwa_rejects_interior_points", cls=cls, mech=where + ":" + type(ex).__name__)
@@ -196,7 +198,7 @@ def judge_family(ctx, t, src, tgt, opts, where):
                 y = t.apply(np.vstack([p1, p2]))
                 gap = float(np.abs(y[0] - y[1]).max())
                 ctx.err("pwa_edge_gap", gap)
-                if gap > 1e-5 * scale:
+                if not (gap <= 1e-5 * scale):
                     ctx.fail("pwa_is_not_continuous_across_an_edge", cls=cls, mech=where, gap=gap)
             except Exception:
                 pass
